@@ -36,7 +36,9 @@ def _dc(V, spec_id, group):
         # the lookup strategies keep separate books of what was provided / rejected
         o['data_first_search'] = V.bool('data_first_search')
     cap = V.pick('max_errors', [None, 1, 2, 3] if V.thorough or group != 'alias' else [None, 2])
-    items = sym_items(V, spec_id, limit=limit_for(V, spec_id, group), strs=V.thorough or spec_id != 'onerr')
+    # (alias / alias: room for three spellings of one field -- name, alias and a second letter case of the alias)
+    limit = 6 if (spec_id, group) == ('alias', 'alias') and not V.thorough else limit_for(V, spec_id, group)
+    items = sym_items(V, spec_id, limit=limit, strs=V.thorough or spec_id != 'onerr')
     co = dict(o, collect_errors=True)
     if cap:
         co['max_errors'] = cap
@@ -72,12 +74,13 @@ def _dc(V, spec_id, group):
 
 
 C10_SPECS = {'basic': ['plain', 'addition', 'alias'], 'onerr': ['plain', 'policy'], 'mix': ['plain', 'addition'],
-             'deps': ['plain'], 'alias': ['plain'], 'mode': ['mode']}
+             'deps': ['plain'], 'alias': ['plain', 'alias'], 'mode': ['mode']}
 for _spec, _groups in C10_SPECS.items():
     for _g in GROUPS:
         if not applicable(_spec, _g):
             continue
-        ob('dataclass/%s/%s' % (_spec, _g), marks=['accept', 'reject'], budget=(100, 400), per_path=(15, 30), exhaustive=(True, False),
+        ob('dataclass/%s/%s' % (_spec, _g), marks=['accept', 'reject'], budget=(100, 400), per_path=(15, 30),
+           exhaustive=(False, False) if (_spec, _g) == ('alias', 'alias') else (True, False),
            thorough_only=_g not in _groups,
            bounds=bounds_text(_spec, _g, 'Schema') + '; lookup strategy solver-picked in the alias group; the same declaration with and without collect_errors (max_errors '
                   'picked from none,1,2,3)', out='as C05; the thorough key vocabulary (7 / 8 keys) is explored within the budget (solver-driven, every path replayed), not exhausted: the exhaustive claim is the quick vocabulary')((lambda s, g: lambda V: _dc(V, s, g))(_spec, _g))
